@@ -83,3 +83,35 @@ Proof.
   destruct (Slots.hkind h); [|exact HL]. destruct (Slots.hext h); try exact HL.
   destruct (crc_valid_log m i h d1) as [A B]. destruct HL as [C D]. rewrite A, B. auto.
 Qed.
+
+(* ---- C15: geometry validation ---- *)
+From Coq Require Import Lia ZifyBool ZifyN.
+Require Import Consts Geom.
+
+Theorem reasonably_sized_iff m sz cnt : m_size m - DATA_REGION_OFFSET < 4294967295 ->
+  (reasonably_sized m sz cnt = None <->
+   1 <= sz <= 256 /\ 1 <= cnt <= 16384 /\ sz * cnt <= m_size m - DATA_REGION_OFFSET).
+Proof.
+  intros Hs. unfold reasonably_sized, sat_mul32.
+  change MAX_SEGMENT_SIZE with 256. change MAX_SEGMENTS with 16384.
+  destruct (N.eqb_spec sz 0), (N.ltb_spec 256 sz); cbn [orb]; try (split; [discriminate| lia]).
+  destruct (N.eqb_spec cnt 0), (N.ltb_spec 16384 cnt); cbn [orb]; try (split; [discriminate| lia]).
+  destruct (N.ltb_spec (m_size m - DATA_REGION_OFFSET) (N.min (sz * cnt) 4294967295)); split; try discriminate; try reflexivity; lia.
+Qed.
+
+(* a rejected geometry is answered before any flash operation: the device is returned untouched *)
+Theorem start_rejects_untouched m sz cnt d e : reasonably_sized m sz cnt = Some e -> start_update m sz cnt d = (d, RErr e).
+Proof. intros H. unfold start_update. rewrite H. reflexivity. Qed.
+
+(* the capacity a started session works with is the search result, which is the largest l < 2048 that fits *)
+Theorem start_capacity m sz cnt d d' u : start_update m sz cnt d = (d', ROk u) ->
+  u_maxl u = N.to_nat (max_l (m_size m) sz) /\ u_moff u = max_l (m_size m) sz * sz.
+Proof.
+  unfold start_update. destruct (reasonably_sized m sz cnt); [discriminate|].
+  destruct (alloc_slotpair m d) as [d1 [[a b]|e|]]; try discriminate.
+  destruct (prog_word m a KIND_OFFSET KIND_FIRMWARE d1) as [d2 [[]|e|]]; try discriminate.
+  destruct (set_layout m a cnt sz d2) as [d3 [[]|e|]]; try discriminate.
+  destruct (prog_word m b KIND_OFFSET KIND_PARITY d3) as [d4 [[]|e|]]; try discriminate.
+  destruct (set_layout m b (max_l (m_size m) sz) sz d4) as [d5 [[]|e|]]; try discriminate.
+  intros H. inversion H. split; reflexivity.
+Qed.
